@@ -1,9 +1,12 @@
 #!/bin/bash
-# seeded_matrix.sh [own|all] : runs every seeded change against its own property's check (own) or against all checks (all)
+# seeded_matrix.sh [own|all] [parallel jobs, default 3] [name filter (grep -E)]:
+# runs every seeded change against its own property's check (own) or against all checks (all); results go to seeded/<id>/result.json
 mode=${1:-own}
+jobs=${2:-3}
+filter=${3:-.}
 cd "$(dirname "$0")/.."
-for d in seeded/*/; do
-  d=${d%/}
+one() {
+  d=$1; mode=$2
   name=$(basename $d)
   prop=$(echo $name | sed -E 's/^revert_(C[0-9]+)_.*/\1/; s/^(C[0-9]+)_.*/\1/')
   if [ "$mode" = "own" ]; then
@@ -12,4 +15,6 @@ for d in seeded/*/; do
     res=$(/venv/bin/python tools/run_seeded.py $d 2>&1 | tail -1)
   fi
   echo "$name -> $res"
-done
+}
+export -f one
+ls -d seeded/*/ | sed 's,/$,,' | grep -E "$filter" | xargs -P $jobs -I{} bash -c "one {} $mode"
